@@ -36,4 +36,43 @@ def c20_part(chk, tier, rng):
 
 
 def c18_part(chk, tier, rng):
-    pass
+    """C18 at database level: forged MANIFESTs (harness/forge.c, checks/gens_forge.py) opened, read, scanned both ways, compacted,
+    written and reopened by the real code in a child process under ASan+UBSan with a 15 s alarm and an RSS limit: every call
+    has to return a status.  (Damaged copies of real files are C11's part; these descriptors are well-framed and wrong.)"""
+    import concurrent.futures as cf, subprocess, vlib, gens_forge
+    fbin = vlib.build_harness('forge', 'asan', exclude=[])
+    n = 36 if tier == 'quick' else 1500
+    reqs = gens_forge.gen_forge(rng.fork('forge'), n)
+    env = vlib.asan_env()
+    env['ASAN_OPTIONS'] = env.get('ASAN_OPTIONS', '') + ':hard_rss_limit_mb=3000'
+    nchunk = max(1, min(vlib.NPROC, len(reqs) // 3))
+    chunks = [reqs[i::nchunk] for i in range(nchunk)]
+
+    def run(chunk):
+        try:
+            p = subprocess.run([fbin], input=''.join(r + '\n' for r in chunk), stdout=subprocess.PIPE, stderr=subprocess.PIPE, text=True, env=env, timeout=60 + 20 * len(chunk))
+            return chunk, p.stdout.split('\n'), p.stderr
+        except subprocess.TimeoutExpired:
+            return chunk, [], 'TIMEOUT'
+    opened = refused = bad = 0
+    with cf.ThreadPoolExecutor(nchunk) as ex:
+        for chunk, out, err in ex.map(run, chunks):
+            for i, r in enumerate(chunk):
+                o = out[i] if i < len(out) else '(no answer: the harness itself died) ' + err[-300:]
+                ok = o.endswith('-> exit=0')
+                chk.note_case(('forge', o.split(' -> ')[0][:60]), ok and o.startswith('open=0'))
+                if o.startswith('open=0'):
+                    opened += 1
+                else:
+                    refused += 1
+                if not ok:
+                    bad += 1
+                    if bad <= 3:
+                        first = next((l.strip() for l in err.split('\n') if 'ERROR' in l or 'runtime error' in l), '')
+                        chk.violation('forged MANIFEST: a call did not return a status (%s) %s' % (o[-120:], first[:200]), {'forge': r, 'answer': o, 'stderr_tail': err[-1500:],
+                                      'replay_cmd': 'echo "<forge line>" | <forge harness built by ./check>'})
+    chk.rules.append('database level: %d forged MANIFESTs (well-framed; bounds inverted / equal / widened / narrowed, levels shuffled, one table named twice, missing tables, '
+                     'wrong sizes, odd sequence numbers and value types) over three real tables; open, 6 gets, scans both ways, manual compaction, put, the same again, reopen -- in a '
+                     'child process with a 15 s alarm and an RSS limit; %d opened, %d refused at open' % (len(reqs), opened, refused))
+    chk.oblige('forged-manifests: every call returned a status', bad == 0, '%d requests, %d did not' % (len(reqs), bad))
+    chk.extra['forged_manifests'] = {'requests': len(reqs), 'opened': opened, 'refused_at_open': refused, 'not_returning': bad}
